@@ -201,7 +201,7 @@ def code_isAdjacentTo(q, d):
         return None
     fx = Fraction(x)
     if fx == q:
-        return True
+        return x == d
     if fx < q:
         a, b = x, math.nextafter(x, 1e100)
     else:
@@ -487,8 +487,9 @@ def evaluate_case(c, hl, ml, verdict, counts=None):
             verdict.add("exception:" + name, "the implementation threw in %s: %s" % (name, bytes.fromhex(ho.add.split("EXC=")[1].split()[0]).decode(errors="replace")),
                         {"ops": ops[1:j + 1], "implementation": hl[j][:3000]})
             break
-        # ---- memory safety of removals: the GMP add entry points do not grow the scaleExp arrays of the rational LP, every
-        # removal then reads and writes beyond them (heap corruption: what follows is not reproducible)
+        # ---- memory safety of removals: the scaleExp arrays of the rational LP must cover its rows and columns (the GMP add
+        # entry points once did not grow them; every removal then read and wrote beyond them and what followed was not
+        # reproducible, so a history is cut at such a removal)
         if ho.Q is not None and "sxQ" in ho.extras:
             sr, sc = (int(x) for x in ho.extras["sxQ"].split(","))
             if sr < ho.Q.m or sc < ho.Q.n:
@@ -676,7 +677,6 @@ class Gen:
     def __init__(self, rng, mp, risky):
         self.r, self.mp, self.risky = rng, mp, risky
         self.inf = INF
-        self.gmp_added = False
 
     # ---- values (as Fractions; real arguments are always exactly representable doubles)
     def real_coef(self):
@@ -818,8 +818,6 @@ class Gen:
             kinds += ["E"] * 4
         if r.random() < 0.03:
             kinds = ["CL"]
-        if self.gmp_added:
-            kinds = [k_ for k_ in kinds if k_ not in ("RR", "RC", "RRP", "RCP", "RRI", "RCI", "RRG", "RCG")] or ["AR"]
         kd = r.choice(kinds)
         if iface == "g" and kd not in ("AR", "AC", "ARS", "ACS", "L", "G", "W", "U", "B", "O", "RV", "E"):
             iface = "q"
@@ -936,7 +934,6 @@ class Gen:
         o = parse_obs(lines[1])
         ops = []
         self.inf = INF
-        self.gmp_added = False
         tries = 0
         while len(ops) < nops and tries < 4 * nops:
             tries += 1
@@ -948,10 +945,6 @@ class Gen:
             if ans.endswith(" INVALID") or ans.endswith(" UNMODELLED"):
                 continue
             ops.append(line)
-            if line.split()[0] in ("gAR", "gAC", "gARS", "gACS") and o.mode != 0:
-                self.gmp_added = True
-            if line.split()[0] in ("qCL", "SQ", "XS") or (line.split()[0] == "rCL" and o.mode == 1) or line == "M 0":
-                self.gmp_added = False
             o = parse_obs(ans)
         return {"head": head, "ops": ops}
 
